@@ -97,6 +97,29 @@ def run_case(case, ctx):
     k = 1 if solver == "active_set" else int(rs.randint(1, 6))
     cls = gen.choice(rs, ["signed-design", "nonneg-design"]) + "/" + gen.choice(rs, ["interior", "active", "active", "free", "allzero"])
     U, M = make_problem(rs, n, k, cls, slow_solver=(solver == "hals"))
+    if solver in ("hals", "fista", "active_set") and n >= 2 and rs.rand() < 0.12:
+        # structured, well-conditioned designs: equally long, negatively correlated regressors (a Gram matrix with constant row sums
+        # whose dominant eigenvector is orthogonal to the all-ones vector), circulant shifted-kernel designs, and data whose
+        # unconstrained coefficients are all negative although the constrained optimum is not zero
+        kind_s = gen.choice(rs, ["equicorrelated-negative", "circulant", "ls-all-negative"])
+        if kind_s == "circulant":
+            ker = rs.standard_normal(n) * np.array([1.0] + [0.4] * (n - 1))
+            ker -= ker.mean() * float(gen.choice(rs, [0.0, 0.8]))
+            U = np.stack([np.roll(ker, j_) for j_ in range(n)], axis=1)
+            if np.linalg.cond(U) > 50:
+                U = U + 1.5 * np.eye(n)
+            M = U @ (rs.uniform(0.5, 2, (n, k)) * (rs.uniform(size=(n, k)) < 0.6)) + 0.2 * rs.standard_normal((n, k))
+        else:
+            a_ = float(rs.uniform(0.35, 0.9)) / (n - 1)            # correlation -a: Gram = (1+a) I - a 11^T, positive definite
+            G_ = (1 + a_) * np.eye(n) - a_ * np.ones((n, n))
+            U = np.linalg.cholesky(G_).T * float(gen.choice(rs, [1.0, 3.0]))
+            if kind_s == "ls-all-negative":
+                xls = -rs.uniform(0.05, 2.0, (n, k)) * np.where(rs.uniform(size=(n, k)) < 0.4, 0.05, 1.0)
+                M = U @ xls
+            else:
+                M = U @ rs.standard_normal((n, k)) + 0.2 * rs.standard_normal((n, k))
+        cls = kind_s + "/structured"
+        ctx.count("structured_designs/" + kind_s)
     if np.linalg.cond(U) > 60:
         ctx.skip("design not well conditioned")
         return
@@ -108,7 +131,18 @@ def run_case(case, ctx):
         U, M = U * unit, M * unit
         ctx.count("problems_in_other_units")
     u2 = unit * unit
+    int_eq = False
+    if unit == 1.0 and solver in ("hals", "fista", "active_set") and rs.rand() < 0.06:
+        # count data: an integer-valued design and data, the normal equations handed over as integer arrays
+        Ui = np.rint(U * 3).astype(np.int64)
+        Mi = np.rint(M * 3).astype(np.int64)
+        if np.linalg.matrix_rank(Ui) == Ui.shape[1] and np.linalg.cond(Ui.astype(float)) <= 50:
+            U, M = Ui.astype(float), Mi.astype(float)
+            int_eq = True
+            ctx.count("integer_normal_equations")
     UtU, UtM = U.T @ U, U.T @ M
+    if int_eq:
+        UtU, UtM = np.rint(UtU).astype(np.int64), np.rint(UtM).astype(np.int64)
     ctx.count("checked/%s" % solver)
     desc = {"solver": solver, "n": n, "k": k, "class": cls, "cond": round(float(np.linalg.cond(U)), 2)}
 
